@@ -1,7 +1,7 @@
 (* C10 -- Shard union, difference and consolidation neither lose nor invent records.  Statements only. *)
 From Coq Require Import NArith Bool List.
 Import ListNotations.
-From XetModel Require Import Base.Codec Gen.ShardLayout Model.Merkle Model.Shard Proofs.SetOpProofs.
+From XetModel Require Import Base.Codec Gen.ShardLayout Model.Merkle Model.Shard Proofs.SetOpProofs Proofs.SetOpSortedProofs.
 Open Scope N_scope.
 
 (* keys are the four u64 words the code orders and compares by *)
@@ -21,13 +21,33 @@ Theorem C10_union_file_records : forall fuel a b f, In f (union_files fuel a b) 
   In f a \/ In f b \/ exists x y, In x a /\ In y b /\ fkey x = fkey y /\ f = merge_disk x y.
 Proof. exact union_files_records. Qed.
 
-(* difference returns only records of the second shard (the half "not in the first" needs sortedness of the
-   inputs and is exercised by the correspondence and the direct oracle; its Coq proof is not in this revision) *)
-Theorem C10_difference_files_partial : forall fuel a b f, In f (diff_files fuel a b) -> In f b.
+(* difference: on inputs sorted by key (as every shard is written) the walk returns exactly the records of the second
+   shard whose key does not occur in the first *)
+Theorem C10_difference_files_exact : forall fuel a b f, (length a + length b <= fuel)%nat -> KSorted fi_hash a -> KSorted fi_hash b ->
+  (In f (diff_files fuel a b) <-> In f b /\ ~ In (fkey f) (map fkey a)).
+Proof. exact diff_files_spec. Qed.
+Theorem C10_difference_cas_exact : forall fuel a b c, (length a + length b <= fuel)%nat -> KSorted ci_hash a -> KSorted ci_hash b ->
+  (In c (diff_cas fuel a b) <-> In c b /\ ~ In (ckey c) (map ckey a)).
+Proof. exact diff_cas_spec. Qed.
+(* without the sortedness premise: only records of the second shard *)
+Theorem C10_difference_files_subset : forall fuel a b f, In f (diff_files fuel a b) -> In f b.
 Proof. exact diff_files_subset. Qed.
-Theorem C10_difference_cas_partial : forall fuel a b c, In c (diff_cas fuel a b) -> In c b.
+Theorem C10_difference_cas_subset : forall fuel a b c, In c (diff_cas fuel a b) -> In c b.
 Proof. exact diff_cas_subset. Qed.
+(* union and difference keep their outputs sorted by key, so the result can be searched and merged again (consolidation
+   merges repeatedly) *)
+Theorem C10_union_sorted : forall fuel fa fb ca cb, KSorted fi_hash fa -> KSorted fi_hash fb -> KSorted ci_hash ca -> KSorted ci_hash cb ->
+  KSorted fi_hash (union_files fuel fa fb) /\ KSorted ci_hash (union_cas fuel ca cb).
+Proof. intros. split; [apply union_files_sorted | apply union_cas_sorted]; assumption. Qed.
+Theorem C10_difference_sorted : forall fuel fa fb ca cb, KSorted fi_hash fb -> KSorted ci_hash cb ->
+  KSorted fi_hash (diff_files fuel fa fb) /\ KSorted ci_hash (diff_cas fuel ca cb).
+Proof. intros. split; [apply diff_files_sorted | apply diff_cas_sorted]; assumption. Qed.
+Example C10_difference_premises_satisfiable :
+  KSorted ci_hash [so_c 1; so_c 2] /\ KSorted ci_hash [so_c 2; so_c 3] /\ diff_cas 4 [so_c 1; so_c 2] [so_c 2; so_c 3] = [so_c 3].
+Proof. exact diff_example. Qed.
 
 Print Assumptions C10_union_file_keys.
 Print Assumptions C10_union_file_records.
-Print Assumptions C10_difference_files_partial.
+Print Assumptions C10_difference_files_exact.
+Print Assumptions C10_union_sorted.
+Print Assumptions C10_difference_sorted.
